@@ -16,7 +16,7 @@
 From Coq Require Import String List ZArith NArith Bool.
 Import ListNotations.
 From Selfies Require Import Base Generated Atoms Grammar Decoder PySet Matching Smiles Kekulize Encoder
-  IndexSpec IndexCode Reader RoundTrip EncoderFacts PureFacts EncHyp EncGood EncAttr EncFaithful EncOrd.
+  IndexSpec IndexCode Reader RoundTrip EncoderFacts PureFacts EncHyp EncGood EncAttr EncFaithful EncOrd EncKeep EncRing.
 Local Open Scope string_scope.
 
 Definition C03_full_statement : Prop :=
@@ -60,7 +60,19 @@ Example C03_chain_bond_orders_example :
   | Err _ => false end = true.
 Proof. vm_compute. reflexivity. Qed.
 
+(* bond half, ring-closure bonds, at symbol level (proofs/EncRing.v): the output has the shape TW (atom symbol, then ring
+   symbols with their index symbols, branches, the rest of the chain); every ring symbol is printed for one closing ring
+   bond b of the kekulised graph, its index symbols encode the distance src - dst - 1 between the two atoms, its bond
+   prefix rs has the order of b (what the decoder's symbol reader computes from rs), and b sits in the slot of a ring
+   bond e0 of the reader's graph whose order it has kept - unless e0 was aromatic, in which case b is single or double.
+   Not covered: that e0's order is the one written at the two ring digits of the SMILES (max of the two, or aromatic). *)
+Theorem C03_ring_bond_orders_faithful_partial : forall T smiles strict attribute x maps,
+  encoder T smiles strict attribute = Ok (x, maps) ->
+  exists m0 m tss, smiles_to_mol smiles attribute = Ok m0 /\ x = join (lit ".") (map (@concat N) tss) /\ Forall (TW (ring_back m0 m)) tss.
+Proof. exact encoder_ring_orders. Qed.
+
 Print Assumptions C03_index_arithmetic_partial.
+Print Assumptions C03_ring_bond_orders_faithful_partial.
 Print Assumptions C03_chain_bond_orders_faithful_partial.
 Print Assumptions C03_three_symbols_partial.
 Print Assumptions C03_symbols_faithful_partial.
